@@ -82,6 +82,10 @@ struct Setup {
     cands: Vec<Cand>,
     /// (fork point, tip of the four-block side branch) — see `setup`
     side: Option<(H, H)>,
+    /// a plain valid transaction (own cell, proposed with the candidates) that the probe blocks of
+    /// script candidates carry *behind* the candidate; on the warm node it has been verified
+    /// (cached) through the pool before, the candidate has not
+    tail: Option<TransactionView>,
 }
 
 const FEE: u64 = 20_000;
@@ -610,6 +614,10 @@ fn setup(ci: u64, rng: &mut Rng) -> Option<Setup> {
     }
     cands.extend(later);
     cands.extend(later_pairs);
+    let tail: Option<TransactionView> = next_cell().map(|(k, c)| {
+        builder::build_tx(&gi, &[(out_point(&k), 0)], &[builder::OutSpec { capacity: cap_of(&c) - FEE, lock: lock7.clone(), type_: None, data: vec![0x7A, 0x11, ci as u8] }], &[], &[], None)
+    });
+    let all: Vec<TransactionView> = all.into_iter().chain(tail.iter().cloned()).collect();
     let all: Vec<TransactionView> = all.into_iter().chain(cands.iter().skip(all_len(&cands)).map(|c| c.tx.clone())).collect();
     let all: Vec<TransactionView> = {
         let mut seen = HashSet::new();
@@ -627,7 +635,8 @@ fn setup(ci: u64, rng: &mut Rng) -> Option<Setup> {
     if cands.iter().any(|c| stn.tx_info.contains_key(&h(&c.tx.hash())) || c.pre.iter().any(|t| stn.tx_info.contains_key(&h(&t.hash())))) {
         return None;
     }
-    Some(Setup { gi, tg, params, tip: cur, cands, side: side_tip.map(|t| (fork_point, t)) })
+    let tail = tail.filter(|t| !stn.tx_info.contains_key(&h(&t.hash())));
+    Some(Setup { gi, tg, params, tip: cur, cands, side: side_tip.map(|t| (fork_point, t)), tail })
 }
 
 fn all_len(c: &[Cand]) -> usize {
@@ -806,6 +815,11 @@ struct Verdict {
 }
 
 /// Verdict of a candidate on both paths. Leaves the node at the context tip with an empty pool.
+/// The transaction that follows the candidate in its probe blocks (script candidates only).
+fn tail_for<'a>(s: &'a Setup, c: &Cand) -> Option<&'a TransactionView> {
+    s.tail.as_ref().filter(|_| c.name.starts_with("script.") || c.name == "valid.plain_transfer" || c.name == "valid.secp256k1_signed")
+}
+
 fn verdicts(s: &Setup, node: &Node, c: &Cand, clear_cache: bool) -> Verdict {
     let debug = std::env::var("VERIF_DEBUG").is_ok();
     if clear_cache {
@@ -833,6 +847,15 @@ fn verdicts(s: &Setup, node: &Node, c: &Cand, clear_cache: bool) -> Verdict {
     }
     let mut txs = c.pre.clone();
     txs.push(c.tx.clone());
+    // script candidates: a transaction the warm node has already verified sits right behind the
+    // candidate it has never verified (verdicts must not leak between neighbours in a block)
+    if let Some(t) = tail_for(s, c) {
+        if !clear_cache {
+            let _ = tpc.submit_local_tx(t.clone());
+            let _ = tpc.clear_pool(node.shared.cloned_snapshot());
+        }
+        txs.push(t.clone());
+    }
     let (blk, resolved) = block_with(s, &txs);
     {
         // queries about a block the node has not seen yet (a peer or an RPC client may ask)
@@ -1252,8 +1275,9 @@ pub fn run(args: &Args) -> i32 {
                 }
                 let Some((_, accepted1)) = vec1.get(c.name).copied() else { continue };
                 let ext1 = ext1s.get(c.name).cloned().flatten();
-                let (x1, _) = block_with(&s, std::slice::from_ref(&c.tx));
-                let (x1b, _) = block_with(&s, std::slice::from_ref(&c.tx));
+                let probe: Vec<TransactionView> = std::iter::once(c.tx.clone()).chain(tail_for(&s, c).cloned()).collect();
+                let (x1, _) = block_with(&s, &probe);
+                let (x1b, _) = block_with(&s, &probe);
                 let target: ckb_types::H256 = x1b.hash().unpack();
                 let mut outcome: Vec<(bool, bool, Option<String>)> = vec![]; // (x1 accepted, x1b accepted, ext of x1b)
                 for clear in [false, true] {
